@@ -33,7 +33,7 @@
 //! Output:  <OK|HANG>#<events joined by ,>      events in global order:
 //!   S<c> handler start   E<c> handler end   O<c>.<j> op j of the handler of call c completed
 //!   R<c> the peer received the reply of call c (R<c>! = an error reply)    AT / X<c> see above
-//! HANG = not every expected reply within the watchdog time (5 s), confirmed by a second run in a fresh
+//! HANG = not every expected reply within the watchdog time (8 s; handlers need milliseconds), confirmed by a second run in a fresh
 //! pair of connections (the events of the last run are printed).
 use std::collections::HashMap;
 use std::io::{BufRead, Write};
@@ -49,7 +49,7 @@ use zbus::{block_on, connection::Builder, Connection, Guid, MessageStream, Objec
 
 const PATHS: [&str; 4] = ["/t/a", "/t/b", "/t/c", "/t/d"];
 const AUX: &str = "/x/aux";
-const WATCHDOG: Duration = Duration::from_millis(5000);
+const WATCHDOG: Duration = Duration::from_millis(8000);
 
 struct Ctx {
     log: Mutex<Vec<String>>,
@@ -427,15 +427,20 @@ fn register_all(server: &Connection, ctx: &Arc<Ctx>) -> zbus::Result<()> {
 
 /// wait until the dispatch task answers (a call that arrives before its subscription is dropped — see case L)
 fn wait_ready(client: &Connection) -> bool {
+    // Pings with a growing patience (25 ms .. 1 s), for about 20 s in all: on a heavily loaded machine a round trip
+    // can take long, and a Ping sent before the subscription exists is never answered
     block_on(async {
-        for _ in 0..400 {
+        let start = std::time::Instant::now();
+        let mut patience = 25u64;
+        while start.elapsed() < Duration::from_secs(20) {
             let call = client.call_method(None::<()>, "/", Some("org.freedesktop.DBus.Peer"), "Ping", &());
-            let timer = async_io::Timer::after(Duration::from_millis(25));
+            let timer = async_io::Timer::after(Duration::from_millis(patience));
             futures_util::pin_mut!(call);
             futures_util::pin_mut!(timer);
             if let futures_util::future::Either::Left((Ok(_), _)) = futures_util::future::select(call, timer).await {
                 return true;
             }
+            patience = (patience * 3 / 2).min(1000);
         }
         false
     })
@@ -454,7 +459,7 @@ fn case_d(w: &[&str], ctx: &Arc<Ctx>) -> Verdict {
         return Verdict::Bad;
     }
     if !wait_ready(&client) {
-        // the object server never answered a Ping (10 s of retries): nothing is dispatched at all
+        // the object server never answered a Ping (20 s of retries): nothing is dispatched at all
         std::mem::forget(server);
         std::mem::forget(client);
         return Verdict::Hang;
@@ -596,7 +601,7 @@ fn run_once(line: &str) -> (Verdict, String) {
         };
         let _ = tx.send(v);
     });
-    let v = match rx.recv_timeout(WATCHDOG + Duration::from_millis(15000)) {
+    let v = match rx.recv_timeout(WATCHDOG + Duration::from_millis(40000)) {
         Ok(v) => v,
         Err(_) => Verdict::Hang,
     };
